@@ -380,7 +380,8 @@ pub fn check(c: &Case) -> CheckResult {
                     Path::InvalidQueryReply => {
                         // a query of `size - 48 - 120` bytes that is not UTF-8: the server's
                         // InvalidQuery reply echoes it, so the reply is about `size` bytes
-                        let qlen = size.saturating_sub(48 + 120).max(1);
+                        // (kept below the server's own incoming frame limit, 16 MiB)
+                        let qlen = size.saturating_sub(48 + 120).clamp(1, 4 << 20);
                         let query = vec![0xFFu8; qlen];
                         io.send(&frame_with(7, 0, &query, 1, b"null", 2, 0)).await.map_err(|e| Fail::new("harness-send", e.to_string()))?;
                         let f = recv_frame(&mut io, "the reply to a request with a non-UTF-8 query").await?;
